@@ -95,8 +95,19 @@ class Check:
             d = rng.choice([[1969, 12, 31], [1965, 7, 4], [2017, 5, 1], [2020, 2, 29], [2021, 12, 31], [2022, 1, 1], [2019, 3, 31], [2023, 10, 29], [2016, 2, 28], [2024, 6, 30], [1999, 12, 31], [2038, 1, 19]])
             prec = rng.choice(["day", "hour", "minute", "second"])
             lit = {"date": d, "sep": rng.choice(["-", "-", ":"]), "quoted": True, "unpadded": rng.random() < 0.2}
-            if prec != "day":
+            if prec != "day" and rng.random() < 0.3:
+                # a literal whose first second lies in (or next to) the local hour a DST switch repeats or skips: the interval is
+                # one of wall-clock readings, which exist as text (and as file times in the repeated hour) whatever the zone rules say
+                trs = dst_transitions(z, rng.choice([2021, 2023]))
+                if trs:
+                    loc = datetime.datetime.fromtimestamp(rng.choice(trs), z)
+                    wall = loc.replace(tzinfo=None) + datetime.timedelta(hours=rng.choice([-1, -1, 0, 0, 1]))
+                    d = [wall.year, wall.month, wall.day]
+                    lit["date"] = d
+                    lit["h"] = wall.hour
+            if prec != "day" and "h" not in lit:
                 lit["h"] = rng.choice([0, 9, 15, 23])
+            if prec != "day":
                 if prec != "hour":
                     lit["mi"] = rng.choice([0, 10, 59])
                     if prec != "minute":
